@@ -52,6 +52,8 @@ type Case struct {
 	// types (specializers are type names, arguments are literals)
 	World string `json:"world,omitempty"`
 	Arity int    `json:"arity"`
+	// Enum marks a history of the bounded-exhaustive enumeration.
+	Enum  bool   `json:"enum,omitempty"`
 	Tasks [][]Op `json:"tasks"`
 	// schedule
 	Policy    string   `json:"policy"`
@@ -129,7 +131,93 @@ func genOp(r *tape.Rand, arity int, nextID *int, wDef, wRem, wCall int, builtin 
 	return Op{K: "call", Args: a}
 }
 
+// Bounded-exhaustive part of the thorough tier: every history of three
+// operations on a 1-argument generic function and of two operations on a
+// 2-argument one, over the full alphabet {defmethod with each of the four
+// qualifiers and each specializer tuple over the class chain plus t,
+// remove-method of each, call with each argument class tuple}, each followed
+// by one call per argument class tuple (so that the state the history left is
+// observed completely). Single routine, compared step by step.
+func alphabet(arity int) (ops []Op) {
+	var tuples func(n, lo, hi int) [][]int
+	tuples = func(n, lo, hi int) [][]int {
+		if n == 0 {
+			return [][]int{{}}
+		}
+		var out [][]int
+		for _, t := range tuples(n-1, lo, hi) {
+			for v := lo; v <= hi; v++ {
+				out = append(out, append(append([]int{}, t...), v))
+			}
+		}
+		return out
+	}
+	for _, k := range []string{"def", "rem"} {
+		for _, q := range []string{"", "before", "after", "around"} {
+			for _, sp := range tuples(arity, -1, nClasses-1) {
+				ops = append(ops, Op{K: k, Qual: q, Specs: sp})
+			}
+		}
+	}
+	return append(ops, sweep(arity)...)
+}
+
+func sweep(arity int) (ops []Op) {
+	hi := nClasses - 1
+	if arity == 1 {
+		hi = nClasses // nil as an argument
+	}
+	var rec func(pre []int)
+	rec = func(pre []int) {
+		if len(pre) == arity {
+			ops = append(ops, Op{K: "call", Args: append([]int{}, pre...)})
+			return
+		}
+		for v := 0; v <= hi; v++ {
+			rec(append(pre, v))
+		}
+	}
+	rec(nil)
+	return
+}
+
+var (
+	alpha1, alpha2 = alphabet(1), alphabet(2)
+	enum1          = len(alpha1) * len(alpha1) * len(alpha1)
+	enum2          = len(alpha2) * len(alpha2)
+)
+
+// EnumCases is the number of enumerated histories in the thorough tier (every
+// eighth case until they are used up; the probe enumerated_histories of the
+// evidence file says how many actually ran).
+func EnumCases() int { return enum1 + enum2 }
+
+func enumCase(idx int) Case {
+	c := Case{Arity: 1, Policy: sched.PolicyRTB, Salt: 1, TapeSeed: 1, Enum: true}
+	alpha, n := alpha1, 3
+	if idx >= enum1 {
+		idx -= enum1
+		c.Arity, alpha, n = 2, alpha2, 2
+	}
+	var ops []Op
+	for i := 0; i < n; i++ {
+		op := alpha[idx%len(alpha)]
+		idx /= len(alpha)
+		if op.K == "def" {
+			op.ID = i + 1
+		}
+		ops = append(ops, op)
+	}
+	c.Tasks = [][]Op{append(ops, sweep(c.Arity)...)}
+	return c
+}
+
 func (e *engine) Generate(seed uint64, idx int, tier string, avoid []harness.Finding) json.RawMessage {
+	if tier == "thorough" && idx%8 == 0 && idx/8 < enum1+enum2 {
+		// spread over the tier, so that every worker gets its share
+		b, _ := json.Marshal(enumCase(idx / 8))
+		return b
+	}
 	r := tape.NewRand(tape.Mix(seed, uint64(idx)))
 	builtinOnce.Do(builtinInit)
 	c := Case{Arity: 1 + r.Intn(2), Salt: r.Uint64(), TapeSeed: r.Uint64()}
@@ -687,6 +775,9 @@ func (e *engine) Execute(raw json.RawMessage) (vd harness.Verdict) {
 	vd.Steps = s.Stats.Steps
 	vd.Faults["context_switches"] = s.Stats.Switches
 	vd.Probes["lock_contended"] = s.Stats.LockContended
+	if c.Enum {
+		vd.Probes["enumerated_histories"]++
+	}
 	vd.Extra = map[string]int{"switch_pairs": len(s.SwitchPairs())}
 	pin := func() {
 		p := c
